@@ -23,11 +23,14 @@ def registry(lib):
     o = Origins(b, lib)
     out = []
     problems = []
-    for blk, t in b.calls():
+    # registrations first (a table-driven registration tells which other calls belong to it), then everything else
+    for blk, t in sorted(b.calls(), key=lambda bt: (bt[1]["callee"] != "runtime::Runtime::register_function", bt[0])):
         c = t["callee"]
         if c == "runtime::Runtime::register_function":
             name_t = o.of_operand(t["args"][1])
             tab = _table_rows(name_t, o.of_operand(t["args"][2]), b, o)
+            if tab is None:
+                tab = _const_table_rows(lib, b, o, name_t, t["args"][2])
             if tab is not None:
                 # registration driven by a table: `for (name, f) in [("abs", Box::new(AbsFn::new())), ..] { register_function(name, f) }`
                 for nm, tys, why in tab:
@@ -59,6 +62,8 @@ def registry(lib):
             out.append((nm, next(iter(tys)), blk))
         elif c.startswith("functions::") and c.endswith("::new"):
             pass
+        elif c == "<indirect>" and _CONST_TABLE_CALLS.get(id(b)) == blk:
+            pass    # the constructor taken from the const table (checked with the table)
         elif c.startswith("std::boxed::Box::<T>::new"):
             pass
         elif c in ("std::iter::IntoIterator::into_iter", "std::iter::Iterator::next") or c.startswith("std::boxed::box_assume_init") or \
@@ -67,6 +72,108 @@ def registry(lib):
         else:
             problems.append(f"bb{blk}: unexpected call {c} in register_builtin_functions")
     return out, problems
+
+
+_CONST_TABLE_CALLS = {}
+
+
+def _const_table_rows(lib, b, o, name_terms, fn_operand):
+    """Registration driven by a `const TABLE: [(&str, fn() -> Box<dyn Function>); N] = [("abs", boxed::<AbsFn>), ..]`:
+    the name is field 0 of an element of the table, the function is the result of calling field 1 of the same element, each
+    constructor is a crate-local generic `fn boxed<F>() -> Box<dyn Function> { Box::new(F::default()) }` (or `F::new()`)
+    instantiated at the builtin's type, and that type's `Default::default()` is `Self::new()`."""
+    def table_of(terms):
+        out = set()
+        for x in terms:
+            if not (x[0] == "field" and x[1][0] == "elem"):
+                return None
+            y = x[1][1]
+            while y[0] == "iter":
+                y = y[1]
+            out.add((y, x[2]))
+        return out
+    nt = table_of(name_terms)
+    if not nt or len(nt) != 1:
+        return None
+    base, idx = next(iter(nt))
+    if idx != "0" or base[0] != "promoted":
+        return None
+    # the function value: result of an indirect call whose callee is field 1 of the same element
+    ft = o.of_operand(fn_operand)
+    calls = [(bb, t) for bb, t in b.calls() if t["callee"] == "<indirect>" and t.get("func")]
+    if len(calls) != 1 or not ft or not all(x[0] == "call" and x[1] == "<indirect>" for x in ft):
+        return None
+    fbb, fcall = calls[0]
+    if table_of(o.of_operand(fcall["func"])) != {(base, "1")} or fcall["args"]:
+        return None
+    # the table itself: promoted -> &CONST -> the const's initialiser
+    pb = lib.promoted(b.deff, base[1])
+    cdef = None
+    if pb is not None:
+        for _, _, st in pb.stmts(reachable_only=False):
+            if st["k"] == "assign":
+                for op in ([st["rv"].get("op")] if st["rv"].get("op") else []) + list(st["rv"].get("ops", [])):
+                    if isinstance(op, dict) and op.get("k") == "const" and op.get("uneval"):
+                        cdef = op["uneval"]
+                if st["rv"]["k"] == "ref" and st["rv"]["place"].get("l") is not None:
+                    pass
+    cb = None
+    for x in lib.bodies:
+        if x.kind == "const" and x.promoted is None and x.deff == cdef:
+            cb = x
+    if cb is None:
+        return None
+    co = Origins(cb, lib)
+    rows = []
+    arrs = [st for _, _, st in cb.stmts(reachable_only=False) if st["k"] == "assign" and st["rv"]["k"] == "agg" and st["rv"].get("ak") == "array"]
+    if len(arrs) != 1:
+        return None
+    for op in arrs[0]["rv"]["ops"]:
+        for tup in co.of_operand(op):
+            if not (tup[0] == "agg" and tup[1] == "tuple" and len(tup[2]) == 2):
+                rows.append(("?", "?", f"table row is not a (name, constructor) pair: {fmt_terms([tup])[:60]}"))
+                continue
+            names = [x[1] for x in tup[2][0] if x[0] == "const"]
+            if len(names) != 1 or len(tup[2][0]) != 1:
+                rows.append(("?", "?", "table row name is not a single string literal"))
+                continue
+            m = re.match(r'^"(.*)"$', str(names[0]))
+            nm = m.group(1) if m else str(names[0])
+            tys = set()
+            for x in tup[2][1]:
+                x2 = x[1] if x[0] == "cast" else x
+                if x2[0] == "fnitem" and len(x2) > 2 and len(x2[2]) == 1 and _is_boxed_ctor(lib, x2[1]):
+                    ty = x2[2][0]
+                    if _default_is_new(lib, ty):
+                        tys.add(ty)
+                    else:
+                        tys.add("?default of " + ty)
+                else:
+                    tys.add("?" + fmt_terms([x])[:50])
+            if len(tys) != 1 or next(iter(tys)).startswith("?"):
+                rows.append((nm, "?", f"constructor for {nm!r} is not `boxed::<T>` with T::default() = T::new(): {sorted(tys)}"))
+            else:
+                rows.append((nm, next(iter(tys)), None))
+    _CONST_TABLE_CALLS[id(b)] = fbb
+    return rows
+
+
+def _is_boxed_ctor(lib, fn):
+    """fn is a crate-local `fn f<F>() -> Box<dyn Function>` whose body is Box::new(F::default()) or Box::new(F::new())."""
+    fb = lib.fn(fn)
+    if fb is None or fb.arg_count != 0:
+        return False
+    names = [t["callee"] for _, t in fb.calls()]
+    return sorted(names) in (["std::boxed::Box::<T>::new", "std::default::Default::default"],) and \
+        all(x[0] == "call" and x[1] == "std::default::Default::default" for x in Origins(fb, lib).of_local(0))
+
+
+def _default_is_new(lib, ty):
+    db = lib.fn(f"<{ty} as std::default::Default>::default")
+    if db is None:
+        return False
+    r = Origins(db, lib).of_local(0)
+    return bool(r) and all(x[0] == "call" and x[1] == f"{ty}::new" for x in r)
 
 
 def _table_rows(name_terms, fn_terms, body=None, o=None):
